@@ -459,7 +459,8 @@ class _Timeout(BaseException):
     pass
 
 
-QUERY_CPU_LIMIT = 45.0  # seconds of CPU time (not wall time: the box may be loaded) for ONE query; the whole battery takes < 1 s
+_TIMED_OUT = [0]  # queries of the running battery that hit the limit; afterwards the rest of that battery is not executed
+QUERY_CPU_LIMIT = 20.0  # seconds of CPU time (not wall time: the box may be loaded) for ONE query; the whole battery takes < 1 s
 
 
 def _on_vtalrm(signum, frame):
@@ -474,6 +475,8 @@ def _ans(fn):
     import threading
 
     armed = False
+    if _TIMED_OUT[0]:
+        return "!!not-run-after-a-query-of-this-battery-did-not-terminate"
     if threading.current_thread() is threading.main_thread():
         try:
             signal.signal(signal.SIGVTALRM, _on_vtalrm)
@@ -484,6 +487,7 @@ def _ans(fn):
     try:
         return fn()
     except _Timeout:
+        _TIMED_OUT[0] += 1
         return "!!does-not-terminate"
     except (MemoryError, RecursionError) as e:
         return "!!" + type(e).__name__
@@ -510,6 +514,7 @@ def battery(h: Hist, repo, families=None, extra_ids=(), only=None, list_only=Fal
     label = _labels(h)
     if families is None:
         families = h.families
+    _TIMED_OUT[0] = 0
 
     def put(key, fn):
         if only is not None and not only(key):
